@@ -175,6 +175,19 @@ func genWire(g *genCtx) {
 		for _, tn := range typeNames {
 			base := defaultAssign(r, tn, false)
 			rt(tn, base)
+			if tf := tailField(tn); tf != "" {
+				// the text travelling in an optional parameter (message_payload and friends) with an empty body,
+				// and next to a body
+				for _, tag := range []int{0x0424, 0x0204, 0x001e, 1, 2} {
+					a := cloneAssign(base)
+					a[tf] = fval{tlvs: []tlvVal{{tag, randBytes(r, 1+r.Intn(60))}}}
+					rt(tn, a)
+					b := defaultAssign(r, tn, true)
+					b[tf] = fval{tlvs: []tlvVal{{tag, randBytes(r, 1+r.Intn(60))}}}
+					fixCounts(tn, b)
+					rt(tn, b)
+				}
+			}
 			fs := layouts[tn].Fields
 			for i, f := range fs {
 				switch f.K {
